@@ -21,6 +21,14 @@ CHECKS = {
    text="Deductive: loop-invariant proof of the real MaximizeMergeMatching._match_instances over a symbolic best-first candidate list for IoU, Dice and ASSD: the label map is a partial map pred->ref whose entries are candidates; a reference is matched only through a single candidate meeting the threshold; the book-kept score of a reference is the combined score of exactly the predictions assigned to it and is never worse than the seeding candidate's; on every merge path the statement's condition (strictly better in the metric's preferred direction) is proved from the comparison the code made; new_combination_score scores preds(r)+{p} and leaves the map untouched. Counter-models are replayed on the real matcher with stubbed scorers; bounded end-to-end enumeration on 1-D fragments.",
    note=TRUST_COMMON + "assumed contracts: _calc_matching_metric_of_overlapping_labels (best-first candidates, score = metric of the single pair), Metric.__call__ with label selection = function of (ref label, set of pred labels) (C06).",
    tech="contract-based deductive verification: AST->z3 VCs with loop invariants over map/set abstractions, counter-model replay"),
+ "C06": dict(cat="proof", design="DESIGN.md 3 C06",
+   text="Deductive: Metric.DSC/IOU/RVD.__call__ -> _Metric.__call__ -> _compute_instance_* -> coefficient functions are executed symbolically on arrays in a voxel-set theory (per-voxel terms over symbolic base arrays, mask cardinalities by Venn-region/BAPA reduction) for symbolic reference label, prediction label / list / set of labels, several dtypes, with and without selection; the result is proved equal to the statement's set formula wherever the quotient is defined, caller arrays are proved unwritten; Dice=2IoU/(1+IoU), symmetry, [0,1], =1 iff identical are NRA lemmas; clDice: harmonic-mean glue and 2-D/3-D dispatch with the skeleton uninterpreted. Counter-models (region sizes + witness voxels) are turned into arrays and replayed.",
+   note=TRUST_COMMON + "numpy element-wise semantics as modelled in pyvc/npmodel.py; skimage skeletonize uninterpreted; arrays have < 2^40 elements.",
+   tech="contract-based deductive verification: symbolic execution in a voxel-set theory, Venn-region cardinality reduction, z3 (NRA), counter-model replay"),
+ "C13": dict(cat="proof", design="DESIGN.md 3 C13",
+   text="Deductive: PanopticaResult.__init__ (binarisation, global loop) and _calc_global_bin_metric are executed symbolically on symbolic label arrays with the edge-case configuration as symbolic enum values: global_bin_<m> is the set formula of the two foregrounds (Dice/IoU/RVD) or the metric called on exactly the two binarised arrays (ASSD/clDice), the statement's empty-side scenario value otherwise; metrics not requested are not set; caller arrays are not written. Counter-models replayed on the real class; bounded 2x2 enumeration.",
+   note=TRUST_COMMON + "numpy model; ASSD/clDice bodies are C07/C06.",
+   tech="contract-based deductive verification: symbolic execution with symbolic enum configuration and voxel-set theory, counter-model replay"),
 }
 NA_REASON = "check not built yet (build in progress, see DESIGN.md section 7)"
 def main():
